@@ -262,54 +262,48 @@ def pdb_written(ctx, top, frames, root, lengths=None, angles=None, bfactors=None
     return [(l_.literal() if l_.literal() is not None else l_) for l_ in lines_], me
 
 
-def pdb_loaded(ctx, lines_, root, assume_=None):
-    """PdbStructure._load evaluated on the lines: Atom.__init__ runs from its source for every ATOM line; the structure's bookkeeping is recorded.
-    -> dict(models=[[atom record Obj, ...], ...], lengths, angles, ters)"""
+def pdb_read_models(ctx, lines_, root, assume_=None):
+    """PDBTrajectoryFile._read_models evaluated on the lines: PdbStructure, Model, Chain, Residue, Atom (and their nested classes) are instantiated
+    from their source (sa/tensym.py `instantiate`), the mdtraj Topology that is filled in is a recorder.
+    -> dict(positions=Ten(models, atoms, 3), lengths, angles, atoms=[(chain id, residue name, residue number, atom name, element symbol, serial)])"""
+    import ast as _ast
     smod = ctx.py.mod(PDBS)
+    pmod = ctx.py.mod(PDB)
     sfuncs = {q: f for q, f in smod.functions.items() if "." not in q}
-    load = ctx.py.func(PDBS, "PdbStructure._load")
-    ainit = ctx.py.func(PDBS, "Atom.__init__")
-    rec = {"models": [], "ters": 0}
-    me = Obj(tag="structure", load_all_models=True, _current_model=None, _unit_cell_lengths=None, _unit_cell_angles=None, _next_atom_number=1, _next_residue_number=1,
-             _atom_num_nondec_mode=None, _residue_num_nondec_mode=None, _lenient=True)
+    classes = {n.name: n for n in smod.tree.body if isinstance(n, _ast.ClassDef)}
+    for n in list(classes.values()):
+        for b in n.body:
+            if isinstance(b, _ast.ClassDef):
+                classes[n.name + "." + b.name] = b
+    rm = ctx.py.func(PDB, "PDBTrajectoryFile._read_models")
+    rec = {"atoms": [], "chains": 0}
 
-    def reset_atoms():
-        me._next_atom_number = 1
-        me._atom_num_nondec_mode = None
+    def mktop(ev, call):
+        top = Obj(tag="topology", bonds=[], _lenient=True)
 
-    def reset_res():
-        me._next_residue_number = 1
-        me._residue_num_nondec_mode = None
+        def add_chain(chain_id=None, **kw):
+            rec["chains"] += 1
+            return Obj(tag="chain", chain_id=chain_id, index=rec["chains"] - 1)
 
-    def add_model(m):
-        rec["models"].append([])
-        me._current_model = m
+        def add_residue(name, chain, resSeq=None, segment_id="", **kw):
+            return Obj(tag="residue", name=name, chain=chain, resSeq=resSeq, segment_id=segment_id)
 
-    def add_atom(a):
-        if me._current_model is None:
-            add_model(Obj(tag="model", number=0, _finalize=lambda: None, connects=[], _current_chain=Obj(_add_ter_record=lambda: rec.__setitem__("ters", rec["ters"] + 1))))
-        rec["models"][-1].append(a)
-    me._reset_atom_numbers, me._reset_residue_numbers, me._add_model, me._add_atom, me._finalize = reset_atoms, reset_res, add_model, add_atom, (lambda: None)
-
-    def mkmodel(ev, call):
-        n_ = ev.ex(call.args[0]) if call.args else 1
-        return Obj(tag="model", number=n_, _finalize=lambda: None, connects=[], _current_chain=Obj(_add_ter_record=lambda: rec.__setitem__("ters", rec["ters"] + 1)))
-
-    def mkatom(ev, call):
-        a = Obj(tag="atom record", _lenient=True)
-
-        def mkloc(ev2, c2):
-            args = [ev2.ex(x_) for x_ in c2.args]
-            a.location = args
-            return Obj(tag="location", position=args[1] if len(args) > 1 else None)
-        sub = TenSym({"element": Obj(get_by_symbol=lambda s_: Obj(tag="element", symbol=s_), hydrogen=Obj(tag="element", symbol="H"))}, funcs=sfuncs,
-                     models={"Atom.Location": mkloc}, parent=ev)
-        sub.assume = assume_ or assume
-        vals = [ev.ex(x_) for x_ in call.args]
-        sub.run_fn(ainit, **{"self": a, "pdb_line": vals[0], "pdbstructure": vals[1] if len(vals) > 1 else None})
-        return a
-    ts = TenSym({}, funcs=sfuncs, models={"Model": mkmodel, "Atom": mkatom}, parent=root)
+        def add_atom(name, element, residue, serial=None, **kw):
+            a = Obj(tag="atom", name=name, element=element, residue=residue, serial=serial, index=len(rec["atoms"]))
+            rec["atoms"].append((residue.chain.chain_id, residue.name, residue.resSeq, name, getattr(element, "symbol", None), serial))
+            return a
+        top.add_chain, top.add_residue, top.add_atom = add_chain, add_residue, add_atom
+        top.create_standard_bonds = lambda *a_, **k_: None
+        top.create_disulfide_bonds = lambda *a_, **k_: None
+        top.add_bond = lambda *a_, **k_: None
+        return top
+    me = Obj(tag="pdb file(read)", _mode="r", _file=list(lines_), _topology=None, _standard_names=False, _positions=None, _lenient=True)
+    me._getters = {"positions": lambda s_: s_._positions}
+    ts = TenSym({}, funcs=sfuncs, models={"Topology": mktop}, parent=root)
+    ts.classes = classes
     ts.assume = assume_ or assume
-    ts.run_fn(load, self=me, input_stream=list(lines_))
-    rec["lengths"], rec["angles"] = me._unit_cell_lengths, me._unit_cell_angles
-    return rec
+    ts.module_env = {"element": Obj(get_by_symbol=lambda s_: Obj(tag="element", symbol=s_), hydrogen=Obj(tag="element", symbol="H")),
+                     "sys": Obj(stdout=None), "warnings": Obj(warn=lambda *a_, **k_: None),
+                     "PDBTrajectoryFile": Obj(_residueNameReplacements={}, _atomNameReplacements={}, _guess_element=lambda *a_: None)}
+    ts.run_fn(rm, self=me)
+    return dict(positions=me._positions, lengths=me._unitcell_lengths, angles=me._unitcell_angles, atoms=rec["atoms"])
